@@ -1,4 +1,4 @@
-package gnoe2e
+package opsync
 
 import (
 	"bytes"
@@ -15,9 +15,9 @@ import (
 	"verif/harness/tlc"
 )
 
-// The composed modules EXTEND / INSTANCE modules of other families (GnosisSlotProps, ChainSyncProps,
-// SigRuleProps, Gossip). When one of those changes its constants, the arity of an operator or the
-// shape of a record, TLC fails with a parse or evaluation error deep inside a run. Preflight
+// The OpSync modules INSTANCE ChainSync.tla (the block tree of the C15 family). When that module
+// changes its constants, the arity of an operator or the shape of a record, TLC fails with a parse
+// or evaluation error deep inside a run. Preflight
 // (1) parses the composed modules with SANY and (2) model-checks a tiny plan that evaluates every
 // operator of the composition, and turns an incompatibility into ONE clear INCONCLUSIVE line that
 // names the symbols / the foreign module positions involved.
@@ -58,7 +58,7 @@ func sanyErrors(out string) []string {
 }
 
 func specSource() string {
-	if d := os.Getenv("VERIF_GNOE2E_SPECDIR"); d != "" { // self-test of the preflight with a broken copy of specs/
+	if d := os.Getenv("VERIF_OPSYNC_SPECDIR"); d != "" { // self-test of the preflight with a broken copy of specs/
 		return d
 	}
 	return tlc.SpecDir
@@ -94,7 +94,7 @@ func sanyOne(dir, mod string) string {
 		errs = t
 	}
 	return fmt.Sprintf("specs/%s.tla does not parse against the current specification modules it composes "+
-		"(GnosisSlot*.tla / ChainSync*.tla / SigRule*.tla / Gossip.tla changed? adapt specs/GnosisE2E*.tla): %s", mod, strings.Join(errs, " | "))
+		"(ChainSync.tla changed? adapt specs/OpSync*.tla): %s", mod, strings.Join(errs, " | "))
 }
 
 var rePos = regexp.MustCompile(`^Line (\d+), column (\d+) to line (\d+), column (\d+) in (\w+)$`)
@@ -131,7 +131,7 @@ func evalError(out string) string {
 		t := strings.TrimSpace(l)
 		if m := reStackLoc.FindStringSubmatch(t); m != nil {
 			stack = append(stack, m[1])
-			if !strings.HasPrefix(m[2], "GnosisE2E") && !strings.HasPrefix(m[2], "MCgen_") {
+			if !strings.HasPrefix(m[2], "OpSync") && !strings.HasPrefix(m[2], "MCgen_") {
 				foreign = append(foreign, m[1])
 			}
 			continue
@@ -171,7 +171,7 @@ func evalError(out string) string {
 
 // Preflight returns "" or the text for an INCONCLUSIVE line.
 func Preflight() string {
-	dir, err := os.MkdirTemp(tlc.ScratchRoot(), "verif-gnoe2e-sany-")
+	dir, err := os.MkdirTemp(tlc.ScratchRoot(), "verif-opsync-sany-")
 	if err != nil {
 		return "cannot make a scratch directory: " + err.Error()
 	}
@@ -186,7 +186,7 @@ func Preflight() string {
 			return err.Error()
 		}
 	}
-	mods := []string{"GnosisE2EMC", "GnosisE2ETrace"} // both import GnosisE2E and GnosisE2EProps
+	mods := []string{"OpSyncMC", "OpSyncTrace"} // both import OpSync and OpSyncProps
 	res := make([]string, len(mods))
 	var wg sync.WaitGroup
 	for i, m := range mods {
@@ -211,27 +211,16 @@ func Preflight() string {
 	if specSource() != tlc.SpecDir {
 		return "" // the smoke run below reads specs/ itself
 	}
-	// smoke run: two slots, two tickers, a restart: every operator of the composition is evaluated
-	// and the imported ghost (GnosisSlotProps) is folded over several requests and keys messages, so
-	// that a changed MEANING of an imported operator shows up here (round 4: GhostRequest) and not in
-	// the middle of a plan
-	p := Plan{Name: "preflight", GasLimit: 2, MaxAge: 1, Unreg: []int{}, Ranks: defaultRanks, First: 2, MaxSlot: 3, TxGas: []string{"Low"}, MaxTx: 1,
-		MaxLag: 1, MaxLoss: 0, MaxRestarts: 1, Laggards: []int{}, Tickers: []int{0, 1}, Policies: []string{"sharesfirst"}}
-	mod, files, cfg := p.mcFiles()
-	cfg = strings.Replace(cfg, " Emit = TRUE", " Emit = FALSE", 1)
-	t0 := time.Now()
-	defer func() {
-		if os.Getenv("VERIF_GNOE2E_TAGS") != "" {
-			fmt.Fprintf(os.Stderr, "gnoe2e preflight smoke run: %.1fs\n", time.Since(t0).Seconds())
-		}
-	}()
-	r, err := tlc.Run(tlc.Opts{Module: mod, CfgText: cfg, Files: files, Workers: 3, Timeout: 5 * time.Minute, HeapGB: 2})
+	// smoke run: every operator of the code-shaped layer and of the property layer is evaluated
+	p := preflightPlan()
+	mod, files, cfg := p.mcFiles("emit")
+	r, err := tlc.Run(tlc.Opts{Module: mod, CfgText: cfg, Files: files, Workers: 2, Timeout: 5 * time.Minute, HeapGB: 2})
 	if err != nil {
 		return "preflight TLC run: " + err.Error()
 	}
 	if r.Errored != "" {
-		return "specs/GnosisE2E*.tla do not evaluate against the current specification modules they compose " +
-			"(a record shape / operator of GnosisSlot*.tla, ChainSync*.tla, SigRule*.tla or Gossip.tla changed? adapt specs/GnosisE2E*.tla): " + evalError(r.Out)
+		return "specs/OpSync*.tla do not evaluate against the current specification modules they compose " +
+			"(a record shape / operator of ChainSync.tla changed? adapt specs/OpSync*.tla): " + evalError(r.Out)
 	}
 	if r.Violation {
 		return "the composed code-shaped spec violates its own property layer already in the preflight plan (" + r.ViolatedWhat + "; " + namedMonitors(r) +
